@@ -22,7 +22,7 @@ ASSUMPTIONS = ["hashlib is the reference for the six algorithms", "salt quality 
 
 ALGS = ["md5", "sha1", "sha224", "sha256", "sha384", "sha512"]
 SECRETS = ["", "a", "b", "A", "a ", "aa", "é", "é", "a\x00", {"$": "bigstr", "c": "a", "n": 1000}, V.Y(b"a"), V.Y(b"\xff"),
-           "hunter2-ZQX", "pässwörd-ÜÑ"]
+           "hunter2-ZQX", "pässwörd-ÜÑ", "user:pass", "abcd:efgh", ":", "QUJD:QUJD", "sysadmin:hunter22", "{\"salt\": \"x\"}"]
 FORMATS = ["json", "yaml", "xml", "bson", "pickle"]
 ROUTES = ["attr", "ctor", "default", "default-callable", "digest-default", "load_tree", "document", "list-assign", "list-append", "dict-item"]
 
